@@ -188,6 +188,11 @@ pub fn test_predict(case: &PredictCase) -> TestResult {
             .class(case.tag_scores, "--tag-scores")
             .class(!case.wsconst.is_empty(), "--wsconst")
             .class(rejected > 0, "rejected-line")
+            .class(
+                case.lines.windows(2).any(|w| w[0] != w[1] && !w[0].is_empty() && KyteaFullwidthFilter.filter(w[0].as_str()) == KyteaFullwidthFilter.filter(w[1].as_str())),
+                "adjacent-lines-equal-after-normalisation",
+            )
+            .class(case.lines.windows(2).any(|w| w[0] == w[1] && !w[0].is_empty()), "adjacent-equal-lines")
             .class(case.spec.tag_models.is_empty(), "model-without-tag-models")
     };
     let norm_changes = case.lines.iter().any(|l| KyteaFullwidthFilter.filter(l.as_str()) != *l);
@@ -258,6 +263,23 @@ fn resolve_line(raw: &[u16], palette: &[char]) -> String {
     s
 }
 
+/// The same text with some characters in the other width (ASCII <-> full-width forms).
+fn flip_width(line: &str, salt: usize) -> String {
+    line.chars()
+        .enumerate()
+        .map(|(k, c)| {
+            if (k + salt) % 3 == 2 {
+                return c;
+            }
+            match c as u32 {
+                0x21..=0x7e => char::from_u32(c as u32 + 0xfee0).unwrap(),
+                0xff01..=0xff5e => char::from_u32(c as u32 - 0xfee0).unwrap(),
+                _ => c,
+            }
+        })
+        .collect()
+}
+
 fn predict_case_strategy() -> impl Strategy<Value = PredictCase> {
     (
         gen::model_case(ModelCfg { max_texts: 2, ..ModelCfg::TAGGED }),
@@ -266,8 +288,9 @@ fn predict_case_strategy() -> impl Strategy<Value = PredictCase> {
         proptest::collection::vec(any::<u16>(), 0..=3),
         prop::bool::weighted(0.25),
         prop::bool::weighted(0.3),
+        proptest::collection::vec(0u8..12, 13),
     )
-        .prop_map(|(mc, lines, flags, ws, drop_tags, invariant)| {
+        .prop_map(|(mc, lines, flags, ws, drop_tags, invariant, relations)| {
             let mut pal: Vec<char> = mc.texts.iter().flat_map(|t| t.chars()).filter(|&c| c != '\n' && c != '\r').collect();
             pal.sort();
             pal.dedup();
@@ -279,6 +302,20 @@ fn predict_case_strategy() -> impl Strategy<Value = PredictCase> {
                 spec.tag_models.clear();
             }
             let mut ls: Vec<String> = lines.iter().map(|l| resolve_line(l, &pal)).collect();
+            // lines related to the line before them: the same line again, the same text in the
+            // other character width (equal after normalisation), its normalised form, a prefix,
+            // an extension - what per-line state carried over to the next line would confuse
+            for i in 1..ls.len() {
+                let prev = ls[i - 1].clone();
+                match relations[i] {
+                    7 => ls[i] = prev,
+                    8 => ls[i] = flip_width(&prev, i),
+                    9 => ls[i] = KyteaFullwidthFilter.filter(prev.as_str()),
+                    10 => ls[i] = prev.chars().take(prev.chars().count().saturating_sub(1)).collect(),
+                    11 => ls[i] = format!("{prev}{}", ls[i]),
+                    _ => {}
+                }
+            }
             // texts of the model are good input lines too
             for t in mc.texts.iter().take(1) {
                 let t: String = t.chars().filter(|&c| c != '\n').collect();
@@ -505,7 +542,7 @@ fn eval_case_strategy() -> impl Strategy<Value = EvalCase> {
 }
 
 pub fn run(rep: &mut Report) {
-    let n = rep.n(1500, 15000);
+    let n = rep.n(6000, 100000);
     rep.run_prop(
         "predict",
         "the real predict binary (rebuilt from /repo): generated models with/without tag models \
@@ -527,7 +564,7 @@ rejected line between accepted ones and a line the normaliser changes.",
 --tag-scores; same oracle",
         false,
         (0..3u8).map(|k| {
-            let mc = crate::checks::c14::large_model(&crate::checks::c14::LargeCase { n_tag_models: 60, n_char_ngrams: 200, n_words: 20 });
+            let mc = crate::checks::c14::large_model(&crate::checks::c14::LargeCase { n_tag_models: 60, n_char_ngrams: 200, n_words: 20, n_long_words: 0 });
             let ch = |i: usize| char::from_u32(0x4E00 + (i % 120) as u32).unwrap();
             let lines: Vec<String> = match k {
                 0 | 1 => (0..3000usize)
@@ -555,7 +592,7 @@ rejected line between accepted ones and a line the normaliser changes.",
         }),
         test_predict,
     );
-    let n = rep.n(800, 8000);
+    let n = rep.n(3000, 40000);
     rep.run_prop(
         "evaluate",
         "the real evaluate binary: valid tokenized references (untagged without --predict-tags, \
